@@ -29,7 +29,19 @@ EDITS = {
  'idles-loop-var': ('src/loop_logic.rs', [('        for idle in idles {\n            idle.borrow_mut().dispatch(data);\n        }', '        for cb in idles {\n            cb.borrow_mut().dispatch(data);\n        }')]),
  'ping-close-early': ('src/sources/ping/eventfd.rs', [('                if close {\n                    Ok(PostAction::Remove)\n                } else {\n                    Ok(PostAction::Continue)\n                }', '                Ok(if close { PostAction::Remove } else { PostAction::Continue })')]),
  'transient-remove-arm-order': ('src/sources/transient.rs', []),
+ # batch 3: edits in the functions brought under contract later (io futures, stream, executor drop, block_on, channel ctors)
+ 'io-readable-cond-order': ('src/io.rs', [('if readiness.readable || readiness.error {', 'if readiness.error || readiness.readable {')]),
+ 'io-poll-read-let': ('src/io.rs', [('        match (*self).get_mut().read(buf) {\n            Err(err) if err.kind() == std::io::ErrorKind::WouldBlock => {}\n            res => return TaskPoll::Ready(res),\n        }', '        let outcome = (*self).get_mut().read(buf);\n        match outcome {\n            Err(err) if err.kind() == std::io::ErrorKind::WouldBlock => {}\n            res => return TaskPoll::Ready(res),\n        }')]),
+ 'io-register-waker-order': ('src/io.rs', [('            disp.interest = interest;\n            disp.waker = Some(waker);', '            disp.waker = Some(waker);\n            disp.interest = interest;')]),
+ 'stream-match-form': ('src/sources/stream.rs', [('                    if let Some(evt) = evt {\n                        callback(Some(evt), &mut ());\n                    } else {\n                        callback(None, &mut ());\n                        end_of_stream = true;\n                        break;\n                    }', '                    match evt {\n                        Some(evt) => callback(Some(evt), &mut ()),\n                        None => {\n                            callback(None, &mut ());\n                            end_of_stream = true;\n                            break;\n                        }\n                    }')]),
+ 'blockon-swap-local': ('src/loop_logic.rs', [('            if self.signals.future_ready.swap(false, Ordering::AcqRel) {', '            let ready = self.signals.future_ready.swap(false, Ordering::AcqRel);\n            if ready {')]),
+ 'channel-ctor-field-order': ('src/sources/channel.rs', [('        Channel {\n            receiver,\n            ping,\n            source,\n            capacity: usize::MAX,\n        },', '        Channel {\n            source,\n            ping,\n            receiver,\n            capacity: usize::MAX,\n        },')]),
+ 'schedule-index-typed': ('src/sources/futures.rs', [('let index = active_tasks.vacant_key();', 'let index: usize = active_tasks.vacant_key();')]),
+ 'timeout-future-flip': ('src/sources/timer.rs', [('if Instant::now() >= deadline {\n                    return std::task::Poll::Ready(());', 'if deadline <= Instant::now() {\n                    return std::task::Poll::Ready(());')]),
+ 'executor-drop-comment-move': ('src/sources/futures.rs', [('        // Drain the queue in order to drop all of the runnables.\n        while self.state.incoming.try_recv().is_ok() {}', '        // Finally drain the queue: every runnable (and its future) is dropped here.\n        while self.state.incoming.try_recv().is_ok() {}')]),
+ 'remove-warn-message': ('src/loop_logic.rs', []),
 }
+
 only = sys.argv[1:]
 rows = []
 for name, (rel, edits) in EDITS.items():
@@ -67,7 +79,7 @@ for name, (rel, edits) in EDITS.items():
                 print('    ', p_, l, flush=True)
     finally:
         shutil.rmtree(tmp, ignore_errors=True)
-with open(os.path.join(ROOT, 'seeded', 'BENIGN.md'), 'w') as fh:
+with open(os.path.join(ROOT, 'seeded', 'BENIGN.md' if not only else 'BENIGN-partial.md'), 'w') as fh:
     fh.write('# Harmless refactors vs checks (a VIOLATION here is a false alarm; undecided = needs re-annotation)\n\n')
     for name, compiles, bad, und in rows:
         fh.write('- %s: compiles=%s false_alarms=%s undecided=%s\n' % (name, compiles, [b[0] for b in bad], [(x[0], (x[1] or [''])[0][:120]) for x in und]))
